@@ -149,6 +149,53 @@ template<typename DT, typename IT> static void matmat_case(Tape& t, Ctx& c)
   }
 }
 
+// ---------------------------------------------------------------- blocked double matrix products onto a prescribed block pattern
+// X += alpha D A B with all four matrices BCSR<2,2> (general, non-commuting blocks) resp. D, B scalar CSR and A, X BCSR<2,2>
+template<typename DT, typename IT> static void matmat_bcsr_case(Tape& t, Ctx& c)
+{
+  typedef SparseMatrixBCSR<DT, IT, 2, 2> MB; typedef SparseMatrixCSR<DT, IT> MS;
+  const int kind = t.pick({2, 1}); static const char* kn[] = {"add_double_mat_product(bcsr,bcsr,bcsr)", "add_double_mat_product(csr,bcsr,csr)"};
+  const int m = t.sized(1, 5, 2), k = t.sized(1, 5, 2), l = t.sized(1, 5, 2), n = t.sized(1, 5, 2); const int vcls = t.pick({3, 1, 1});
+  Pat pd = gen_pattern(t, 0, vcls, false, -1, 0, m, k); ensure_entry(t, pd, vcls);
+  Pat pa = gen_pattern(t, 0, vcls, false, -1, 0, k, l); ensure_entry(t, pa, vcls);
+  Pat pb = gen_pattern(t, 0, vcls, false, -1, 0, l, n); ensure_entry(t, pb, vcls);
+  // block-level structural product pattern and the output pattern relative to it
+  std::vector<std::vector<char>> need((size_t)m, std::vector<char>((size_t)n, 0));
+  { Dense sd = dense_of_pat<DT>(pd), sa = dense_of_pat<DT>(pa), sb = dense_of_pat<DT>(pb);
+    for(int i = 0; i < m; ++i) for(int q = 0; q < k; ++q) if(sd.st(i, q)) for(int r = 0; r < l; ++r) if(sa.st(q, r)) for(int j = 0; j < n; ++j) if(sb.st(r, j)) need[(size_t)i][(size_t)j] = 1; }
+  const int xcls = t.pick({3, 3, 3}); static const char* xn[] = {"X:complete", "X:richer", "X:poorer"};
+  Pat px; px.rows = m; px.cols = n; px.col.assign((size_t)m, {}); px.val.assign((size_t)m, {}); px.cls = xn[xcls];
+  for(int i = 0; i < m; ++i) for(int j = 0; j < n; ++j) { bool on = need[(size_t)i][(size_t)j]; if(xcls == 1 && !on) on = t.flag(1, 3); if(xcls == 2 && on && t.flag(1, 3)) on = false; if(on) { px.col[(size_t)i].push_back(j); px.val[(size_t)i].push_back(t.real(vcls)); } }
+  ensure_entry(t, px, vcls);
+  long missing = 0; { Dense sx = dense_of_pat<DT>(px); for(int i = 0; i < m; ++i) for(int j = 0; j < n; ++j) if(need[(size_t)i][(size_t)j] && !sx.st(i, j)) ++missing; }
+  const bool allow = t.flag(); std::string acls; const DT alpha = gen_alpha<DT>(t, acls);
+  c.desc.set("op", kn[kind]); c.desc.set("dt", TypeName<DT>::n()); c.desc.set("D", pd.json()); c.desc.set("A", pa.json()); c.desc.set("B", pb.json()); c.desc.set("X", px.json()); c.desc.set("alpha", (double)alpha); c.desc.set("allow_incomplete", allow); c.desc.set("missing_blocks", missing);
+  c.op = kn[kind]; c.label(std::string("op:") + kn[kind]); c.label(xn[xcls]); c.label(acls); c.label(allow ? "allow_incomplete" : "strict");
+  const bool expect_abort = (missing > 0) && !allow; c.label(expect_abort ? "expect:abort" : (missing > 0 ? "expect:dropped" : "expect:complete"));
+  long nneed = 0; for(auto& r : need) for(char x : r) nneed += x; c.nontrivial = nneed >= 1; c.announce();
+  auto run = [&](MB& X) { MB Am = make_bcsr<DT, IT, 2, 2>(pa);
+    if(kind == 0) { MB Dm = make_bcsr<DT, IT, 2, 2>(pd), Bm = make_bcsr<DT, IT, 2, 2>(pb); X.add_double_mat_product(Dm, Am, Bm, alpha, allow); }
+    else { MS Dm = make_csr<DT, IT>(pd), Bm = make_csr<DT, IT>(pb); X.add_double_mat_product(Dm, Am, Bm, alpha, allow); } };
+  if(expect_abort)
+  {
+    std::string err; std::string r = run_isolated([&] { MB X = make_bcsr<DT, IT, 2, 2>(px); run(X); }, &err);
+    VF_CHECK(r == "abort" || r == "exception", "incomplete output block pattern (" << missing << " missing blocks, allow_incomplete=false) was not reported: child ended with '" << (r.empty() ? "normal return" : r) << "'");
+    return;
+  }
+  MB X = make_bcsr<DT, IT, 2, 2>(px); const Dense x0 = dense_of(X); run(X); const Dense R = dense_of(X);
+  VF_CHECK(R.stored == x0.stored, "product changed the pattern of X");
+  // scalar operands: D (x) I_2 and B (x) I_2 for the csr,bcsr,csr overload
+  const Dense da = dense_of_pat<DT>(pa, 2, 2);
+  auto expand = [&](const Pat& pp, bool blocked) { if(blocked) return dense_of_pat<DT>(pp, 2, 2); Dense sc = dense_of_pat<DT>(pp); Dense e(sc.r * 2, sc.c * 2); for(long i = 0; i < sc.r; ++i) for(long j = 0; j < sc.c; ++j) if(sc.st(i, j)) for(int a = 0; a < 2; ++a) { e(2 * i + a, 2 * j + a) = sc(i, j); e.st(2 * i + a, 2 * j + a) = 1; e.st(2 * i + a, 2 * j + 1 - a) = 1; } return e; };
+  const Dense dd = expand(pd, kind == 0), db = expand(pb, kind == 0); const long double al = (long double)alpha;
+  for(long i = 0; i < 2 * m; ++i) for(long j = 0; j < 2 * n; ++j) if(x0.st(i, j))
+  {
+    long double sum = 0, sabs = 0; long nt = 0;
+    for(long q = 0; q < 2 * k; ++q) if(dd.st(i, q) && dd(i, q) != 0) for(long r = 0; r < 2 * l; ++r) if(da.st(q, r) && db.st(r, j)) { long double pr = dd(i, q) * da(q, r) * db(r, j); sum += pr; sabs += fabsl(pr); ++nt; }
+    NEAR(R(i, j), x0(i, j) + al * sum, fabsl(x0(i, j)) + std::max(fabsl(al), 1.0L) * sabs, 2 * nt + 2, kn[kind] << " entry (" << i << "," << j << ")");
+  }
+}
+
 // ---------------------------------------------------------------- BCSR element-wise / reduction ops
 template<typename DT, typename IT, int H, int W> static void bcsr_elem_case(Tape& t, Ctx& c)
 {
@@ -242,6 +289,7 @@ int main(int argc, char** argv)
   FEAT::Runtime::ScopeGuard guard(argc, argv);
   std::vector<Target> tg;
   tg.push_back({"csr_elem", [](Tape& t, Ctx& c) { if(t.flag(1, 3)) csr_elem_case<float, std::uint32_t>(t, c); else csr_elem_case<double, std::uint64_t>(t, c); }, 96, 12});
+  tg.push_back({"matmat_bcsr", [](Tape& t, Ctx& c) { if(t.flag(1, 4)) matmat_bcsr_case<float, std::uint32_t>(t, c); else matmat_bcsr_case<double, std::uint64_t>(t, c); }, 96, 12});
   tg.push_back({"matmat", [](Tape& t, Ctx& c) { if(t.flag(1, 4)) matmat_case<float, std::uint32_t>(t, c); else matmat_case<double, std::uint64_t>(t, c); }, 96, 12});
   tg.push_back({"bcsr_elem", [](Tape& t, Ctx& c) { switch(t.pick({2, 2, 1})) { case 0: bcsr_elem_case<double, std::uint64_t, 2, 2>(t, c); break; case 1: bcsr_elem_case<double, std::uint64_t, 2, 3>(t, c); break; default: bcsr_elem_case<double, std::uint64_t, 3, 2>(t, c); } }, 96, 12});
   tg.push_back({"densem", densem_case, 96, 12});
